@@ -3,7 +3,9 @@
 From Coq Require Import ZArith List Bool Lia.
 From IBL.lib Require Import PyInt.
 From IBL.C17 Require Import Model.
-From IBL.C03 Require Import Model RtLib Proofs Gains Codec MetaProofs EndToEnd Run RunSound.
+From Coq Require Import Reals.
+From Flocq Require Import Core BinarySingleNaN.
+From IBL.C03 Require Import Model RtLib Proofs Gains Codec MetaProofs EndToEnd AnyGain Run RunSound.
 From IBL.C03 Require Rt_050_512 Rt_050_2048 Rt_050_8192 Rt_060_512 Rt_060_2048 Rt_060_8192
                      Rt_062_512 Rt_062_2048 Rt_062_8192 Rt_sync.
 Import ListNotations.
@@ -61,6 +63,28 @@ Print Assumptions C03_roundtrip_exact_062_8192.
 Theorem C03_roundtrip_exact_sync : forall r, -32768 <= r <= 32767 -> roundtrip gain_one r = r.
 Proof. exact (rt_of_check _ Rt_sync.chk). Qed.
 Print Assumptions C03_roundtrip_exact_sync.
+
+(* ---- ... and for EVERY finite binary32 factor without overflow/underflow ----
+   not an enumeration: two roundings to nearest move r by at most 32768*(2^-23+2^-48) < 1/2 and
+   rint restores it (Flocq's Bmult/Bdiv/Bnearbyint/Btrunc correctness + relative error of FLT). *)
+Theorem C03_roundtrip_any_gain : forall s : f32,
+  is_finite s = true ->
+  (bpow radix2 (-100) <= Rabs (B2R s))%R -> (Rabs (B2R s) <= bpow radix2 100)%R ->
+  forall r, -32768 <= r <= 32767 -> roundtrip s r = r.
+Proof. exact roundtrip_any_gain. Qed.
+Print Assumptions C03_roundtrip_any_gain.
+
+(* the same under a computable condition on the factor (finite, exponent in [-100, 76]) *)
+Theorem C03_roundtrip_any_gain_computable : forall s : f32, ok_gain s = true ->
+  forall r, -32768 <= r <= 32767 -> roundtrip s r = r.
+Proof. exact roundtrip_ok_gain. Qed.
+Print Assumptions C03_roundtrip_any_gain_computable.
+
+(* the hypotheses are met by the nine NP2 settings and by the sync factor *)
+Example C03_example_ok_gains :
+  forallb (fun g => ok_gain (gain_of g)) np2_gains = true /\ ok_gain gain_one = true /\
+  f32_parts (gain 62 100 2048) = [1; 0; 16642998; -42].
+Proof. vm_compute. repeat split. Qed.
 
 (* ---- window bookkeeping: the sample ranges the windows contribute tile [0, ns) ----
    For every recording length and every window size above the hard-coded overlap of 576
@@ -135,6 +159,27 @@ Theorem C03_np2_split_lossless_and_inverse : forall g labels ns W data,
 Proof. exact pub_np2_e2e. Qed.
 Print Assumptions C03_np2_split_lossless_and_inverse.
 
+(* ---- ... and for any factor satisfying the computable condition (AP and sync) ---- *)
+Theorem C03_any_gain_split_lossless_and_inverse : forall sap ssy labels ns W data,
+  ok_gain sap = true -> ok_gain ssy = true ->
+  labels <> [] -> 1 <= ns -> 576 < W -> ns = Z.of_nat (length data) ->
+  (forall r, In r data -> length r = S (length labels)) ->
+  (forall r x, In r data -> In x r -> -32768 <= x <= 32767) ->
+  exists split files,
+    process_np24 (roundtrip sap) (roundtrip ssy)
+                 (Z.of_nat (length labels)) 1 (Z.of_nat (length labels) + 1) labels ns W data
+      = Some split /\
+    split = split_spec labels (Z.of_nat (length labels) + 1) 1 data /\
+    prepare_files labels split = Some files /\
+    reconstruct files = Some data.
+Proof.
+  intros sap ssy labels ns W data Ha Hs Hl Hns HW Hlen Hr Hv.
+  apply (pub_e2e _ _ labels ns W RECON_WINDOW data); try assumption; [reflexivity|].
+  intros r x Hin Hx. pose proof (Hv r x Hin Hx).
+  split; now apply roundtrip_ok_gain.
+Qed.
+Print Assumptions C03_any_gain_split_lossless_and_inverse.
+
 (* ---- metadata: the reconstructor's rewrite undoes the converter's ----
    For a dictionary with unique keys whose acqApLfSy / snsApLfSy start with nch-1, with
    nSavedChans = nch, fileSizeBytes = fs, snsSaveChanSubset = "0:<nch-1>" and without the three
@@ -187,3 +232,33 @@ Example C03_example_split :
   Some [(0, [1; 3], [[2; 100]; [5; 101]]); (2, [0; 2; 3], [[1; 3; 100]; [4; 6; 101]])] /\
   reconstruct [([1; 3], [[2; 100]; [5; 101]]); ([0; 2; 3], [[1; 3; 100]; [4; 6; 101]])] = Some data.
 Proof. vm_compute. split; reflexivity. Qed.
+
+(* the codec on a list with a middle singleton, a run, and a bare last element: "0:2,5:5,7:8,384" *)
+Example C03_example_codec :
+  show_subset [0; 1; 2; 5; 7; 8; 384] =
+    [48; 58; 50; 44; 53; 58; 53; 44; 55; 58; 56; 44; 51; 56; 52] /\
+  parse_subset (show_subset [0; 1; 2; 5; 7; 8; 384]) = Some [0; 1; 2; 5; 7; 8; 384] /\
+  parse_subset (show_subset [5; 3; 4; 4]) = Some [5; 3; 4; 4].
+Proof. vm_compute. repeat split. Qed.
+
+(* end to end on the two-shank frame above: strings written, read back, assertion passes *)
+Example C03_example_prepare :
+  let data := [[1; 2; 3; 100]; [4; 5; 6; 101]] in
+  prepare_files [2; 0; 2]
+    [(0, [1; 3], [[2; 100]; [5; 101]]); (2, [0; 2; 3], [[1; 3; 100]; [4; 6; 101]])] =
+  Some [([1; 3], [[2; 100]; [5; 101]]); ([0; 2; 3], [[1; 3; 100]; [4; 6; 101]])].
+Proof. vm_compute. reflexivity. Qed.
+
+(* a dictionary meeting the preconditions of C03_meta_rewrite_inverse (4 channels, 2 foreign keys) *)
+Example C03_example_meta :
+  let m := [(K_acq, MInts [3; 0; 1]); (100, MTok 7); (K_fsize, MInt 80); (K_nsaved, MInt 4);
+            (K_sns, MInts [3; 0; 1]); (K_subset, MStr (range_str 3)); (101, MTok 8)] in
+  NoDup (keys m) /\
+  exists m0, meta_shank_ap m 2 [0; 2; 3] 60 = Some m0 /\
+             mget K_nsaved m0 = Some (MInt 3) /\ mget K_shank m0 = Some (MInt 2) /\
+             meta_recon m0 4 80 = Some (m ++ [(K_origmeta, MStr str_false)]).
+Proof.
+  cbv zeta. split.
+  - repeat constructor; cbn; intuition discriminate.
+  - eexists. split; [vm_compute; reflexivity|]. vm_compute. repeat split.
+Qed.
